@@ -1,6 +1,6 @@
 """C07 driver assignment, group blend: AOM_BLEND_A64 family, compound diffwtd masks, wedge helpers, CfL, subtract / sse / mse."""
 
-SOURCES = ["kern_drv_blend.c", "kern_drv_blend_mask.c", "kern_drv_blend_cfl.c"]
+SOURCES = ["kern_drv_blend.c", "kern_drv_blend_mask.c", "kern_drv_blend_cfl.c", "kern_drv_blend_upsampled.c"]
 _BY_NAME = {
     "svt_aom_blend_a64_mask": "blend_mask_lbd",
     "svt_aom_highbd_blend_a64_mask": "blend_mask_hbd",
@@ -28,6 +28,7 @@ _BY_NAME = {
     "svt_aom_sse": "sse_wxh",
     "svt_aom_highbd_sse": "sse_wxh_hbd",
     "svt_aom_highbd_8_mse16x16": "mse_void_hbd8",
+    "svt_aom_upsampled_pred": "upsampled_pred",
 }
 DRIVERS = sorted(set(_BY_NAME.values()))
 
